@@ -9,3 +9,9 @@ except ImportError:
                            "/opt/veriftools/wheels", "hypothesis"])
 import bisturi
 print("bisturi from", bisturi.__file__)
+
+# the reference model must reproduce the documented examples before any check trusts it
+import os
+r = subprocess.call([sys.executable, os.path.join(os.path.dirname(os.path.abspath(__file__)), "model_selftest.py")])
+if r != 0:
+    sys.exit("reference model disagrees with the documented examples")
